@@ -437,7 +437,7 @@ class NB:
         elif code == "TANH":
             q = (1.0 / 128, 0) if dt == "int8" else (1.0 / 128, 128) if dt == "uint8" else (1.0 / 32768, 0)
         else:
-            q = self.quant(dt)
+            q = self.quant(dt, (X["scale"], X["zp"]) if code == "LEAKY_RELU" else None)
         fields, table = {}, None
         if code == "LEAKY_RELU":
             table, fields = "LeakyReluOptions", dict(Alpha=self.draw(self.st.sampled_from([0.1, 0.01, 0.2, 0.5, 0.0, -0.5, 1.5])))
@@ -614,7 +614,7 @@ def network(profile="exact", max_ops=6, dtypes=("int8", "int8", "int8", "uint8",
                                                     "exp", "log", "sqrt", "rsqrt", "gelu", "prelu", "prelu", "abs"]))
         if profile == "exact16":  # exact-class operators whose 16-bit reference is pinned down (no ADD/SUB: their int16 reference depends on the pot_scale option)
             menu = ["conv", "conv", "conv", "dw", "fc", "maxpool", "avgpool_valid", "mul", "relu", "relu6", "reshape", "concat", "pad", "quantize", "sslice", "split",
-                    "maximum", "minimum", "mul_const", "padconv", "add", "sub", "add_const"]
+                    "maximum", "minimum", "mul_const", "padconv", "add", "sub", "add_const", "lrelu", "lrelu", "abs"]
         reshape_plan = None
         if profile == "reshapes":  # every kind of operator directly before and/or after a RESHAPE (the rewrites must keep the operator's own shapes)
             menu = list(EXACT_OPS) + APPROX_TAIL_OPS + ["transpose", "transpose", "pack", "unpack", "split_v", "argmax_tail"]
@@ -657,7 +657,7 @@ def network(profile="exact", max_ops=6, dtypes=("int8", "int8", "int8", "uint8",
                     kind = "conv"
             if not r4 and kind in ("conv", "dw", "dw_same", "unsupported_conv", "maxpool", "avgpool_valid", "avgpool_same", "padconv", "tconv", "resize_nearest", "resize_bilinear", "mean"):
                 kind = draw(st.sampled_from(["fc", "add_const", "reshape", "relu", "mul_const"]))
-            if X["dtype"] == "int16" and kind in ("avgpool_same", "resize_bilinear", "hswish", "lrelu", "tconv", "mean", "softmax", "logistic", "tanh"):
+            if X["dtype"] == "int16" and kind in ("avgpool_same", "resize_bilinear", "hswish", "tconv", "mean", "softmax", "logistic", "tanh"):
                 kind = "relu"
             if int(math.prod(X["shape"])) > 200000:
                 kind = draw(st.sampled_from(["maxpool", "relu"])) if r4 else "relu"
